@@ -104,13 +104,25 @@ func check(run *kit.Run, c hist.Case) {
 	id := fmt.Sprintf("%v|%s", c.Pool, c.String())
 	run.Guard("panic|"+id, c, func() {
 		w := hist.NewWorld(c)
+		// Observing a write transaction through Txn.Iter() resets its copy cache, which would hide defects that need the
+		// cache to survive from one write to the next: in every other history the open transaction is left alone between
+		// its writes (the router, which must not show them, is still observed after every step) and only read right
+		// before it ends.
+		quiet := len(c.Pool)%2 == 0
 		for i, op := range c.Ops {
 			nonEmpty := w.Committed.Len() > 0 || (w.Pending != nil && w.Pending.Len() > 0)
 			var before string
-			if w.Txn != nil {
+			if w.Txn != nil && !quiet {
 				before = fox.VerifFingerprint(w.Txn.Iter())
-			} else {
+			} else if w.Txn == nil {
 				before = fox.VerifFingerprint(w.F.Iter())
+			}
+			if quiet && w.Txn != nil && (op.Kind == "commit" || op.Kind == "abort") {
+				if want, got := w.Expect(w.Pending), w.Observe(w.Txn); want != got {
+					run.Violate("txn-view|"+id[:min(len(id), 300)]+fmt.Sprint(i), fmt.Sprintf("before op #%d (%s) the open transaction differs from the map model\n%s\npool: %v\nhistory: %s", i, op, hist.Diff(want, got), c.Pool, c.String()), c)
+					return
+				}
+				run.Count("txn_view_comparisons_before_ending", 1)
 			}
 			nprob := len(w.Problems)
 			w.Apply(op)
@@ -126,7 +138,7 @@ func check(run *kit.Run, c hist.Case) {
 				run.Violate("router-view|"+id[:min(len(id), 300)]+fmt.Sprint(i), fmt.Sprintf("after op #%d (%s) the router differs from the map model\n%s\npool: %v\nhistory: %s", i, op, hist.Diff(want, got), c.Pool, c.String()), c)
 				return
 			}
-			if w.Txn != nil {
+			if w.Txn != nil && !quiet {
 				if want, got := w.Expect(w.Pending), w.Observe(w.Txn); want != got {
 					run.Violate("txn-view|"+id[:min(len(id), 300)]+fmt.Sprint(i), fmt.Sprintf("after op #%d (%s) the open transaction differs from the map model\n%s\npool: %v\nhistory: %s", i, op, hist.Diff(want, got), c.Pool, c.String()), c)
 					return
@@ -134,7 +146,7 @@ func check(run *kit.Run, c hist.Case) {
 				run.Count("txn_view_comparisons", 1)
 			}
 			// a failed call changes nothing
-			if len(w.Problems) == nprob && failed(w, op, before) {
+			if len(w.Problems) == nprob && failed(w, op, before) && before != "" {
 				var after string
 				if w.Txn != nil {
 					after = fox.VerifFingerprint(w.Txn.Iter())
